@@ -327,7 +327,7 @@ func structuralArg(call ssa.CallInstruction) bool {
 var recTable = map[string]string{
 	"(notations/jschema/checker.checkSchema).checkArrayItems": "the recursion follows the types-list of an array node, which (addORShortcut / orRuleSetLoader) can only name generated `#…` types whose root is the array's own literal/mixed item, never an array again",
 	"(openapi.ObjectInfo).PropertiesInfos":                    "follows allOf references; cyclic allOf chains are rejected by CompileAllOf (processingTypes, code 703: rule C07.cycle) and the conversion is defined for accepted schemas",
-	"(errs.Code).F": "errs.f calls ErrRuntimeFailure.F() only on a missing format/arity mismatch; the format of ErrRuntimeFailure has no placeholder (rule C16.fmt), so the nested call returns without recursing further",
+	"(errs.Code).F":                                           "errs.f calls ErrRuntimeFailure.F() only on a missing format/arity mismatch; the format of ErrRuntimeFailure has no placeholder (rule C16.fmt), so the nested call returns without recursing further",
 }
 
 func c02recguard(c *core.Ctx) {
